@@ -740,7 +740,7 @@ impl Property for C10 {
          sum_of_products, frobenius, Zero/One}; Fq: power / ark pow with 0..=9 exponent limbs, conditional_select/assign/swap, ct_eq); operands from the \
          structured field generator (limb patterns, 0, 1, p-1, (p+-1)/2, 2^k+-1), operands related to the accumulator, and chains solved backwards \
          from a result whose Montgomery representation has a limb forced to 0 / 1 / 2^32-1 / the modulus' limb +-1 (operand or accumulator \
-         preimage computed by the model). Oracle: the integer operation mod p in BigUint, compared through \
+         preimage computed by the model). Also: Sum / Product over exact and lazy iterators, sum_of_products with 1..=5 terms, pow_with_table, batch_inversion, base-prime-field round trips, Legendre / sqrt consistency, zeroize, Fermat exponents k(p-1)+{0,1,2} with zero padding, operands needing the most division steps found by guided search, and division by zero (must panic, whatever the dividend). Oracle: the integer operation mod p in BigUint, compared through \
          to_bytes_le (must be the canonical 32/48-byte form) after every step. Non-trivial: chain with a non-uniform operand or a form outside \
          {+,-,*,square,inverse}; distinct by digest"
             .into()
